@@ -132,6 +132,8 @@ def run(tier='quick'):
     G9 = chk.rule('G9', 'the fixed-width primitives every blob field passes through are exact for every value (rule L1 of C02)',
                   floor=14)
     extra.primitives_exact(prog, chk, G9)
+    S5 = chk.rule('S5', 'a setter stores its argument whatever is stored already: no write is skipped on a comparison of the argument with a value a getter or accessor computed from the stored row', floor=10)
+    extra.writes_not_skipped_on_stored_state(prog, cg, eff, chk, S5, extra._mutators_of(prog, ('djinterop::engine::v1::engine_track_impl', 'djinterop::engine::v2::track_impl', 'djinterop::engine::v2::track_table')))
     return chk.finish('value-flow interpretation of the 60 track_impl virtuals of both implementations per '
                       'schema range (%d representative versions): per-field read / write location sets with '
                       'blob-member granularity, converter argument roles, written constants; row-scope and '
